@@ -488,8 +488,10 @@ func C20(c *mc.Ctx) {
 	c20Ranges(c)
 	c20SyncCFT(c)
 	c20ApplyPath(c)
+	c.RunSharded("c20cluster")
+	c.Set("rule_cluster", "D: three real etcdraft.Node replicas stepped one event at a time (select cases of the node loops extracted from the current source, raft state machine stepped synchronously, harness network and executor, real WAL / applied-index storage): deviation-bounded DFS over the scheduler's choices - default schedule + every single deviation (quick), every pair (thorough) - where a deviation is another enabled internal event (ready / propose / deliver any pending message / execute / report / restart), dropping or duplicating a message, crashing a replica with or without its in-flight messages, a spontaneous election, a tick; scripts: leader election, transactions submitted at leader and followers, a leader change, batch sizes 1 and 2 (batch timeout event); oracles on every delivery: height = last executed + 1 on each replica across restarts, identical block content and timestamp on all replicas, a transaction in at most one block, no replica process death; at quiescence every committed batch in a live replica's log has been delivered")
 	c.Set("rule", "A: calcRangeHeight for all begin,end in 0..28 (thorough 0..40) x fetch 1..8; B: SyncCFTBlocks for 2-3 range configurations x every pattern of <=2 injected fetch failures x every sequence of peer picks (choice-point DFS); C: BFS over {raft hands over next 1/2/all committed entries, or re-delivers from index 1; executor reports the oldest unexecuted height; crash+restart with the executor's durable height} on the real raft Node apply path for EVERY committed log of length 4 (thorough 5) over entry heights {empty, 2, 3, 4} plus 4 longer hand-picked shapes (stale duplicate / lower / out-of-order heights)")
-	c.Assume("the etcd raft library (log agreement, which entries are committed and in which order) is trusted; C explores one replica's apply path against an arbitrary committed log, without snapshots; elections, message loss/duplication between replicas and the solo orderer's goroutine pipeline are NOT explored (see DESIGN.md section C20)")
+	c.Assume("the etcd raft library (log agreement, which entries are committed and in which order) is trusted; C explores one replica's apply path against an arbitrary committed log, without snapshots; part D explores elections by explicit campaign events with pre-vote/check-quorum off (tick-driven election timeouts are randomized inside the library), without snapshots (snapshot_count 1000) and without block synchronisation requests; the solo orderer is explored in part E")
 	if c.Get("sync_executions") == 0 || c.Get("range_triples_checked") == 0 {
 		c.HarnessError("vacuous")
 	}
